@@ -211,4 +211,35 @@ def r4_recycling(ctx):
                         {k: v[0].loc(v[1]) for k, v in cal.items()})
 
 
-RULES = [("C14.R1", r1_inventory), ("C14.R2", r2_fresh_state), ("C14.R3", r3_cleanup), ("C14.R4", r4_recycling)]
+def r5_unfinished_stacks_unwound(ctx):
+    """The stack of a task that is still inside its function when the execution ends (abandoned execution, detached task) is unwound, so
+    the values on it are destroyed before the next execution.  The only exception in the source is a process that is already panicking."""
+    prog = ctx.prog
+    C = "shuttle_engine::runtime::thread::continuation::"
+    d = ctx.body("<" + C + "Continuation as core::ops::drop::Drop>::drop", "C14.R5")
+    resets = [s for s, t in d.calls() if any(c.endswith("::force_reset") for c in d.callees_of_call(t, passed=False))]
+    unw = [s for s, t in d.calls() if any(c.endswith("::force_unwind") for c in d.callees_of_call(t, passed=False))]
+    pk = [s for s, t in d.calls() if any(c.startswith("std::") and c.endswith("::panicking") for c in d.callees_of_call(t, passed=False))]
+    ctx.floor("C14.R5", "std::thread::panicking() test in Continuation::drop", len(pk), 1)
+    ctx.floor("C14.R5", "force_unwind in Continuation::drop", len(unw), 1)
+    panicking_edges = set()
+    for s in pk:
+        br = kinds.bool_branch(d, s)
+        if br:
+            for src in d.pred[br[0]]:
+                if d.term(src).get("k") == "switch":
+                    panicking_edges.add((src, br[0]))
+    for i, r in enumerate(resets):
+        w = d.path_exists(None, lambda x, r=r: x == r, edge_ok=lambda a, nb: (a, nb) not in panicking_edges)
+        ctx.ob("C14.R5", "leak-only-while-panicking|#%d" % i, bool(panicking_edges) and w is None,
+               "Continuation::drop skips unwinding an in-flight stack (force_reset) only on the `std::thread::panicking()` edge" if (panicking_edges and w is None) else
+               "Continuation::drop can discard an in-flight task's stack without unwinding it (force_reset) although the thread is not panicking: values on the "
+               "stacks of an abandoned execution survive into the next execution", loc=d.loc(r))
+    # the in-flight arm reaches force_unwind when not panicking
+    if pk and unw:
+        br = kinds.bool_branch(d, pk[0])
+        ok = br is not None and d.path_exists(Site(br[1], 0), d.is_return, lambda x: x in set(unw), start_inclusive=True) is None
+        ctx.ob("C14.R5", "unwound-when-not-panicking", ok, "on the not-panicking edge every path to return unwinds the coroutine", loc=d.loc(unw[0]))
+
+
+RULES = [("C14.R1", r1_inventory), ("C14.R2", r2_fresh_state), ("C14.R3", r3_cleanup), ("C14.R4", r4_recycling), ("C14.R5", r5_unfinished_stacks_unwound)]
